@@ -136,7 +136,7 @@ prop('C15', ['E1', 'E2', 'E3', 'E4', 'E5', 'E6', 'K7', 'I2', 'A5'],
      'the key sort swallow (E5); only documented exception types are thrown (E6); malformed custom '
      'results raise RuntimeError (K7); no error-swallowing lookup on user dicts (I2); a failing '
      'call leaves its operands untouched (A5).',
-     ['reference-count equality after a fault at every k'])
+     ['reference-count equality after a fault at every k'], thorough_rules=['X1'])
 
 prop('C16', ['K8', 'K9', 'K9py', 'I1', 'I2', 'I3', 'S3'],
      'Memory safety / recursion, structural part: the three forward traversals share one depth '
@@ -145,7 +145,7 @@ prop('C16', ['K8', 'K9', 'K9py', 'I1', 'I2', 'I3', 'S3'],
      'unchecked index into a list the user can shrink while user code runs in the loop (I1); '
      'nullable C-API results are tested (I2); index guards (I3); unpickling validates what '
      'unchecked reads rely on (S3).',
-     ['absence of all undefined behaviour'])
+     ['absence of all undefined behaviour'], thorough_rules=['X1'])
 
 prop('C17', ['L1', 'L2', 'L3', 'L4', 'L5', 'T3'],
      'Concurrency, structural part: no call that can run Python code inside a region of a C++ '
